@@ -500,7 +500,7 @@ def gen_subset(rng, tier, i, mode=None):
     # equal lengths on purpose: ties are broken by id
     feats = gen_feats(rng, utts, F, 1, 4 if rng.random() < 0.6 else 9)
     by_len = mode.startswith(("shortest", "longest"))
-    if by_len and n >= 3 and rng.random() < 0.7:
+    if by_len and n >= 3 and rng.random() < 0.85:
         # tie-directed: two lengths only, so that the cut falls inside a group of equal lengths (ties -> by id)
         a = rng.randint(1, 4)
         for u in utts:
@@ -525,16 +525,22 @@ def gen_subset(rng, tier, i, mode=None):
             arg.insert(rng.randint(0, len(arg)), "not-there")
         if not arg:
             arg = ["not-there"]
-    elif mode.endswith("_n"):
-        arg = rng.choice([0, 1, n - 1, n, n + 3, rng.randint(0, n)])
-        if by_len and n >= 3 and rng.random() < 0.7:
-            # put the cut strictly inside a group of equal lengths whenever one has >= 2 members
+    else:
+        # tie-directed (by-length modes): put the cut strictly inside a group of equal lengths
+        inside = []
+        if by_len and n >= 3 and rng.random() < 0.85:
             lens = sorted((len(feats[u]) for u in utts), reverse=mode.startswith("longest"))
             inside = [c for c in range(1, n) if lens[c - 1] == lens[c]]
-            arg = rng.choice(inside) if inside else rng.randint(1, n - 1)
-        arg = max(arg, 0)
-    else:
-        arg = pick_ratio(rng, n)
+        if mode.endswith("_n"):
+            arg = max(rng.choice([0, 1, n - 1, n, n + 3, rng.randint(0, n)]), 0)
+            if inside:
+                arg = rng.choice(inside)
+        else:
+            arg = pick_ratio(rng, n)
+            good = [r for r in RATIOS if int(n * r) in inside
+                    and (r in (0.25, 0.5, 0.75) or 0.05 < n * r - int(n * r) < 0.95)]
+            if good:
+                arg = rng.choice(good)
     return {
         "family": "subset", "sub": mode, "feats": feats, "alis": alis, "refs": refs, "have_ali": have_ali,
         "have_ref": have_ref, "extra_ali": extra_ali, "only": only, "mode": mode, "arg": arg,
